@@ -8,7 +8,9 @@ from pathlib import Path
 from . import core, sigverify as sv
 
 KEYSET = {"kp256": "p256", "kp384": "p384", "kp521": "p521", "ked": "ed25519", "ked448": "ed448", "kp256b": "p256",
-          "kedb": "ed25519"}
+          "kedb": "ed25519",
+          # a key name is the whole name: rotated keys named <key>.<generation> live next to <key> (another key of the same type)
+          "kp256.gen2": "p256", "ked.v2": "ed25519"}
 MODEL_KEY = {"kp256": "kp256", "kp384": "kp384", "kp521": "kp521", "ked": "ked"}
 
 
@@ -21,7 +23,7 @@ class Keys:
         self.pub = {}
         for n, (name, kind) in enumerate(KEYSET.items()):
             k = sv.gen_private(kind)
-            if n % 3 == 2:
+            if n % 3 == 2 and "." not in name:
                 (self.dir / f"{name}.der").write_bytes(sv.der(k))
             else:
                 (self.dir / f"{name}.pem").write_bytes(sv.pem(k))
